@@ -1,13 +1,19 @@
 #!/bin/sh
 # try_mutant.sh <patch.diff> <budget-seconds> <prop> [<prop> ...]
-# Applies a seeded change to /repo, runs the named checks against it, and always reverts /repo afterwards.
+# Applies a seeded change to a scratch worktree of /repo (never to /repo itself), runs the named checks against that
+# tree (VERIF_REPO), and removes the worktree afterwards.
 patch=$(realpath "$1"); budget="$2"; shift 2
 cd /verif
-if ! git -C /repo apply --check "$patch" 2>/dev/null; then echo "PATCH DOES NOT APPLY: $patch"; exit 3; fi
-git -C /repo apply "$patch"
-trap 'git -C /repo checkout -- . ; rm -rf /tmp/mut_ev /tmp/mut_rp' EXIT
+MR=/tmp/ovm_mutrepo_$$
+git -C /repo worktree add -q --detach "$MR" HEAD || exit 3
+trap 'git -C /repo worktree remove --force "$MR"; git -C /repo worktree prune; rm -rf /tmp/mut_ev_$$ /tmp/mut_rp_$$' EXIT
+if ! git -C "$MR" apply --check "$patch" 2>/dev/null; then
+    if ! git -C "$MR" apply -3 "$patch" 2>/dev/null; then echo "PATCH DOES NOT APPLY: $patch"; exit 3; fi
+else
+    git -C "$MR" apply "$patch"
+fi
 for p in "$@"; do
-    out=$(VERIF_EVIDENCE_DIR=/tmp/mut_ev VERIF_REPLAY_DIR=/tmp/mut_rp ./check "$p" --budget "$budget" 2>&1)
+    out=$(VERIF_REPO="$MR" VERIF_EVIDENCE_DIR=/tmp/mut_ev_$$ VERIF_REPLAY_DIR=/tmp/mut_rp_$$ ./check "$p" --budget "$budget" 2>&1)
     rc=$?
     echo "== $p rc=$rc"
     echo "$out" | grep -E "^VIOLATION|^KNOWN|^NONDET|^SUMMARY|BUILD" | cut -c1-260
